@@ -34,6 +34,7 @@ NATIVE = {
     "C08": [("mate-in-one", ["--walks=15"], ["--walks=300"])],
     "C13": [("newgame", ["--positions=8", "--depth=3"], ["--positions=150", "--depth=5"])],
     "C09": [("game-history", ["--games=40", "--plies=20"], ["--games=400", "--plies=40"])],
+    "C16": [("uci-process", ["--sessions=40"], ["--sessions=400", "--lines=30"])],
     "C04": [("position-cmd", ["--games=60", "--plies=24"], ["--games=600", "--plies=60"]), ("to-algebraic", [], [])],
 }
 # property -> Kani leaf harnesses (complete proofs: full-domain symbolic inputs, loops bounded by a small constant with unwinding
